@@ -109,3 +109,89 @@ fn c08_bitpacker_w64() {
     rt::<64, 4>();
 }
 
+/// reference behaviour of the SIMD kernel `get_ids_for_value_range_fast` (what it must compute),
+/// used as a stub so that the dispatch / bound narrowing of `get_ids_for_value_range` can be
+/// decided: ids of `id_range` whose value lies in the (already narrowed) u32 value range
+fn stub_range_fast(
+    this: &BitUnpacker,
+    value_range: RangeInclusive<u32>,
+    id_range: Range<u32>,
+    data: &[u8],
+    positions: &mut Vec<u32>,
+) {
+    positions.clear();
+    let mut i = id_range.start;
+    while i < id_range.end {
+        let v = this.get(i, data) as u32;
+        if v >= *value_range.start() && v <= *value_range.end() {
+            positions.push(i);
+        }
+        i += 1;
+    }
+}
+
+/// get_ids_for_value_range = filter of the id range by the u64 value range, for widths <= 32
+/// (fast path; the u64 bounds are narrowed to u32 before the kernel is called) and > 32 (slow
+/// path). The SIMD kernel itself is replaced by its specification (stub above).
+fn ids_for_range<const BITS: u8>() {
+    const N: usize = 3;
+    let vals: [u64; N] = kani::any();
+    let mask = if BITS == 64 { !0u64 } else { (1u64 << BITS) - 1 };
+    let mut out = Fixed { buf: [0; 80], len: 0 };
+    let mut bp = BitPacker::new();
+    let mut i = 0;
+    while i < N {
+        kani::assume(vals[i] <= mask);
+        match bp.write(vals[i], BITS, &mut out) {
+            Ok(()) => {}
+            Err(e) => {
+                std::mem::forget(e);
+                panic!()
+            }
+        }
+        i += 1;
+    }
+    match bp.close(&mut out) {
+        Ok(()) => {}
+        Err(e) => {
+            std::mem::forget(e);
+            panic!()
+        }
+    }
+    let unp = BitUnpacker::new(BITS);
+    let (lo, hi): (u64, u64) = (kani::any(), kani::any());
+    let mut positions: Vec<u32> = Vec::with_capacity(4);
+    unp.get_ids_for_value_range(lo..=hi, 0..N as u32, &out.buf[..out.len], &mut positions);
+    let mut expected = 0usize;
+    let mut i = 0;
+    while i < N {
+        if vals[i] >= lo && vals[i] <= hi {
+            assert!(expected < positions.len() && positions[expected] == i as u32);
+            expected += 1;
+        }
+        i += 1;
+    }
+    assert!(positions.len() == expected);
+    kani::cover!(expected == 2 && hi > u32::MAX as u64, "upper bound beyond 32 bits");
+    std::mem::forget(positions);
+}
+
+#[kani::proof]
+#[kani::unwind(10)]
+#[kani::stub(BitUnpacker::get_ids_for_value_range_fast, stub_range_fast)]
+fn c08_ids_for_value_range_w9() {
+    ids_for_range::<9>();
+}
+
+#[kani::proof]
+#[kani::unwind(10)]
+#[kani::stub(BitUnpacker::get_ids_for_value_range_fast, stub_range_fast)]
+fn c08_ids_for_value_range_w32() {
+    ids_for_range::<32>();
+}
+
+#[kani::proof]
+#[kani::unwind(10)]
+fn c08_ids_for_value_range_w33() {
+    ids_for_range::<33>();
+}
